@@ -536,6 +536,15 @@ class ServerTls(Server):
                                         )
 
 
+    def close(self):
+        """
+        Close all sockets including those of connections still handshaking
+        """
+        super(ServerTls, self).close()  #  call super close
+        for cx in self.cxes.values():  # remoter with handshake in progress
+            cx.close()
+
+
     def serviceAxes(self):
         """
         Service accepteds
